@@ -97,7 +97,12 @@ func (r *MMapReader) SeekNext(offset uint64) (uint64, []byte, error) {
 				}
 			}
 			if ix-i < len(MagicNumberSeparatorLongBytes) {
-				i = ix + 1
+				// the byte that broke the match can itself be the start of a marker, it has to be looked at again
+				if ix == i {
+					i++
+				} else {
+					i = ix
+				}
 				continue
 			}
 
